@@ -239,7 +239,29 @@ def install(ctx):
         monitor.rebind_alias(pnd, a, G, a)
 
 
+def narrow_forced_poly(rng):
+    """a polyhedron stored in int8/int16 (every entry fits) in which a column gets a forced value and moving it into the support column
+    leaves the stored type's range (the result is still an ordinary integer system)"""
+    dt = rng.choice(["int8", "int16"])
+    lim = 127 if dt == "int8" else 32767
+    U = rng.randint(5, 12) if dt == "int8" else rng.randint(100, 300)
+    a = rng.randint(lim // U // 2 + 2, lim // U + 3) if lim // U + 3 <= lim else lim
+    a = min(a, lim)
+    sgn = rng.choice([1, -1])
+    b = -sgn * rng.randint(lim // 2, lim - 1)            # b - sgn*a*U overshoots the range on the side of b's sign
+    c = rng.choice([1, -1, 2])
+    rows = [[U, 1, 0], [int(b), sgn * a, c]]
+    if rng.random() < 0.5:
+        rows.append([rng.choice([0, -1]), 0, rng.choice([1, -1])])
+    rng.shuffle(rows)
+    return {"M": rows, "ids": rng.sample(["x", "y"], 2) if False else ["x", "y"], "bounds": [[0, U], list(rng.choice([(0, 1), (-2, 3), (0, 5)]))],
+            "index": None, "dtype": dt}
+
+
 def gen_case(rng, tier, ctx, i):
+    if rng.random() < 0.04:
+        ctx.count("count:narrow-dtype-forced-column")
+        return {"poly": narrow_forced_poly(rng), "via": rng.choice(["method", "alias", "direct"])}
     case = {"poly": polygen.gen_poly(rng), "via": rng.choice(["method", "alias", "class", "direct"])}
     if rng.random() < 0.12:
         case["derive"] = rng.getrandbits(32)
